@@ -1,7 +1,7 @@
 #!/usr/bin/env python3
 """Self-test of the Coq bridge (lib/bridgelib.py); NOT a property check.
 
-usage: tools/bridge_selftest.py [--quick] [--no-pipeline] [--frozen-table] [--seed N]
+usage: tools/bridge_selftest.py [--quick] [--no-pipeline] [--no-all] [--frozen-table] [--seed N]
 
   1. check_bridge:   `bridge_run core` / `analyze` (model parser + accessor table regenerated from ast.rs)
                      ==  harness `coreast` (real parser + real typed accessors) on
@@ -11,6 +11,12 @@ usage: tools/bridge_selftest.py [--quick] [--no-pipeline] [--frozen-table] [--se
                        (d) damaged programs (random spans deleted / duplicated / replaced): syntax errors, noncore reasons;
   2. check_pipeline: goto_definition + references at every offset and the diagnostics computed END TO END IN
                      COQ FROM THE TEXTS  ==  the real Analysis (harness `idedump`).
+  3. check_all:      THE COMPLETE ANALYSIS: all nine handlers (goto_definition, references, diagnostics, document_symbol,
+                     hover, inlay_hint, folding_range, document_link, completion) answered by
+                     PipelineAll.analyze_all (`bridgeall_run all`) from the texts  ==  `idedump`, at every offset / for
+                     every file / for a sample of inlay-hint ranges, on programs of lib/tdgen.py and lib/outgen.py
+                     (multi-file, non-ASCII comments, CRLF), hand-written and damaged programs.  A disagreement is
+                     printed as a model-vs-code finding naming the handler (= the model) and the input.
 
 With VERIF_REPO=<scratch worktree> the harness is built against that tree and (unless --frozen-table) the
 accessor table gen/GenAst.v of the private Coq copy is regenerated from its ast.rs: the model follows the code.
@@ -246,6 +252,44 @@ def main():
             ok = False
         if not quick and ptotal["compared"] < 300:
             print("FAIL: fewer than 300 workspaces compared end to end")
+            ok = False
+    if "--no-all" not in sys.argv:
+        # the COMPLETE analysis: all nine handlers answered inside Coq (PipelineAll.analyze_all) against idedump
+        import outgen
+
+        def og(w):
+            return {"files": {"/w/" + p: t for p, t in w["files"]}, "root": "/w/" + w["root"]}
+        built_all = bl.build_all()
+        n_out = 60 if quick else 260
+        outw = [og(outgen.gen_workspace(rng, size=rng.choice([3, 5, 7] if quick else [3, 5, 7, 10]))) for _ in range(n_out)]
+        tiny = [og(w) for w in outgen.tiny_hint_workspaces(rng, 10 if quick else 40)]
+        atotal = {"workspaces": 0, "compared": 0, "noncore": 0, "offsets": 0, "hint_requests": 0, "files": 0, "disagreements": 0}
+        nonempty = {}
+        for name, wss in [("generator lib/tdgen.py", gen), ("generator lib/outgen.py", outw), ("tiny inlay-hint programs", tiny),
+                          ("hand-written", hand), ("damaged programs", dam[:len(dam) // 3])]:
+            t1 = time.time()
+            r = bl.check_all(None, wss, rng, built=built_all)
+            print("check_all     %-26s workspaces %4d  compared %4d  noncore %3d  files %4d  offsets %7d  hint requests %5d  disagreements %d  (%.0f s)" % (
+                name, r["workspaces"], r["compared"], r["noncore"], r["files"], r["offsets"], r["hint_requests"],
+                len(r["disagreements"]), time.time() - t1))
+            for d in r["disagreements"][:4]:
+                print("   MODEL-VS-CODE FINDING [%s]: %s" % (d["handler"], d["what"][:700]))
+                print("      files:", json.dumps(d["workspace"]["files"])[:500])
+            for k in ("workspaces", "compared", "noncore", "offsets", "hint_requests", "files"):
+                atotal[k] += r[k]
+            atotal["disagreements"] += len(r["disagreements"])
+            for h, v in r["nonempty"].items():
+                nonempty[h] = nonempty.get(h, 0) + v
+        print("check_all TOTAL: %(workspaces)d workspaces, %(compared)d compared for all nine handlers (%(noncore)d outside Core), "
+              "%(files)d files, %(offsets)d offsets, %(hint_requests)d inlay-hint requests, %(disagreements)d disagreements" % atotal)
+        print("   non-empty real answers per handler (runs for the per-offset handlers):", json.dumps(nonempty, sort_keys=True))
+        if atotal["disagreements"]:
+            ok = False
+        if any(nonempty.get(h, 0) == 0 for h in bl.ALL_HANDLERS):
+            print("FAIL: a handler never gave a non-empty answer:", [h for h in bl.ALL_HANDLERS if nonempty.get(h, 0) == 0])
+            ok = False
+        if not quick and atotal["compared"] < 300:
+            print("FAIL: fewer than 300 workspaces compared for all nine handlers")
             ok = False
     print("bridge self-test:", "OK" if ok else "FAILED", "(%.0f s)" % (time.time() - t0))
     return 0 if ok else 1
